@@ -1086,9 +1086,18 @@ impl TieredEngine {
     /// Hot tier is scanned (bounded size). Cold tier uses an inverted index fast path
     /// for common filter shapes and falls back to scan for `Range`.
     pub fn batch_delete_by_metadata_filter(&self, filter: &MetadataFilter) -> Result<u64> {
-        let hot_ids = self
+        // The hot tier only mirrors the canonical (cold tier) record and its metadata can be
+        // stale (e.g. after a bulk load that bypasses it), so every hot-tier candidate is
+        // re-checked against the canonical metadata before it is selected for deletion.
+        let hot_ids: Vec<u64> = self
             .hot_tier
-            .scan(|meta| crate::metadata_filter::matches(filter, meta));
+            .scan(|meta| crate::metadata_filter::matches(filter, meta))
+            .into_iter()
+            .filter(|doc_id| match self.cold_tier.fetch_metadata(*doc_id) {
+                Some(canonical) => crate::metadata_filter::matches(filter, &canonical),
+                None => false,
+            })
+            .collect();
 
         let cold_ids = self.cold_tier.ids_for_metadata_filter(filter);
 
